@@ -1,6 +1,9 @@
 package props
 
 import (
+	"verif/harness/run"
+	"encoding/json"
+	"strings"
 	"fmt"
 	"testing"
 
@@ -426,17 +429,67 @@ func genC19(t *rapid.T) (*DCase, map[string]bool) {
 	return &DCase{Prog: ast.Prog(items...), Files: []DFile{{Name: "in", Docs: []string{"[1,2]"}}}}, g.labels
 }
 
+// c19Histories: one match site evaluated 70000 times; what an evaluation leaves behind (a
+// failed alternative, a failed array pattern, no matching case at all) never adds up
+var c19Histories = []struct{ prog, want string }{
+	{"BEGIN { for (i = 0; i < 70000; i++) { r = match ([1, i]) { [2, x] => \"a\", [1, y] => y }\ns = s + r } print s }", "2449965000\n"},
+	{"BEGIN { for (i = 0; i < 70000; i++) { r = match ([i + 1, [i]]) { [\"zzz\", v] => 0, [x, [7, 8]] => 0, [x, [y, z]] => 0 }\nif (r is null) { n++ } } print n }", "70000\n"},
+	{"BEGIN { for (i = 0; i < 70000; i++) { r = match (i + 1) { [a] => 1, [a, b], [a, b, c] => 2, \"x\" => 3 }\nif (r is null) { n++ } } print n }", "70000\n"},
+	{"{ r = match ($) { [2, x] => \"a\", [\"zzz\", v] => \"z\", [k, w] => w }\nt = t + r } END { print t }", "70000\n"},
+}
+
 func TestC19(t *testing.T) {
 	rec := start(t, "C19", "exploration",
 		"1-3 match expressions per program: subjects are scalars of every kind (numeric strings vs numbers, booleans, null), arrays of length 0-4 nested to depth 3, occasionally objects; 1-5 cases with 1-3 alternatives each: literals, identifiers, array patterns nested to depth 2 (aimed to match or to miss: wrong length, one element missing, array pattern against a scalar, literal against a container); expression bodies using the bindings or block bodies with prints, assignments to a global, return / next / continue; later cases may carry a pattern that faults if tried; match used as statement, print argument, operand, function result and inside a loop. Expected output from refjq (DESIGN.md 4.5). Non-trivial: the selected alternative is not the first of the first case, an array pattern misses before a later alternative or case matches, a binding is used in the body, or nothing matches. distinct = distinct program.")
 	defer rec.Finish()
 	rec.Assume("refjq's match semantics (DESIGN.md 4.5); patterns other than literals, identifiers and array patterns are unspecified and not generated")
+	rec.Replayer("match-history", func(raw json.RawMessage) error {
+		var prog string
+		if err := json.Unmarshal(raw, &prog); err != nil {
+			return err
+		}
+		for _, h := range c19Histories {
+			if h.prog == prog {
+				var files []run.InFile
+				if strings.HasPrefix(h.prog, "{") {
+					files = []run.InFile{{Name: "in", Data: []byte("[" + strings.Repeat("[1,1],", 69999) + "[1,1]]")}}
+				}
+				o := run.InProc(h.prog, files, nil, run.Opts{Budget: 2_000_000_000})
+				if o.Class != "ok" || string(o.Stdout) != h.want {
+					return fmt.Errorf("70000 evaluations of one match: outcome %s (%s), output %q, want %q", o.Class, o.Msg, clip(string(o.Stdout)), h.want)
+				}
+			}
+		}
+		return nil
+	})
 	rec.Replayer("match", replayDiff(false))
 	if rec.ReplayOnly() {
 		return
 	}
 	excl.ArrayAlias = rec.KnownActive("KF-array-alias", false)
 	rec.ReplayTier()
+	if sh, _ := shardInfo(); sh == 0 {
+		var sb strings.Builder
+		sb.WriteString("[")
+		for k := 0; k < 70000; k++ {
+			if k > 0 {
+				sb.WriteString(",")
+			}
+			sb.WriteString("[1,1]")
+		}
+		sb.WriteString("]")
+		for _, h := range c19Histories {
+			var files []run.InFile
+			if strings.HasPrefix(h.prog, "{") {
+				files = []run.InFile{{Name: "in", Data: []byte(sb.String())}}
+			}
+			o := run.InProc(h.prog, files, nil, run.Opts{Budget: 2_000_000_000})
+			rec.Case(h.prog, true, "history-of-70000-matches")
+			if o.Class != "ok" || string(o.Stdout) != h.want {
+				rec.Violation("match-history", h.prog, h.prog, fmt.Sprintf("70000 evaluations of one match: outcome %s (%s), output %q, want %q", o.Class, o.Msg, clip(string(o.Stdout)), h.want))
+			}
+		}
+	}
 	check(rec, "match-random", scale(15000, 15000000), func(rt *rapid.T) {
 		c, labels := genC19(rt)
 		var ls []string
